@@ -149,6 +149,10 @@ def main():
         u = bool(k % 2)
         # baseline pair of the mapped kernel: a driver-side dimension on top of the session configuration
         c = dict(c, base=(("lda", "gga", "ssos")[(k // 2) % 3] if c["mix"] == "libxc2" else ("lda", "gga", "damp" if (c["sl"] == "npa" and c["nldf"] != "none") else "gga", "chachiyo")[(k // 2) % 4]))
+        if k % 5 == 2 and c["nldf"] in ("j", "k"):
+            # the second legal density multiplier of the NLDF settings (driver-side dimension; versions i / ij raise
+            # NotImplementedError for it when the calculator is built)
+            c = dict(c, mult="expnt")
         if k % 3 == 0:
             c = dict(c, fl="rich")        # composite feature transforms with repeated argument indices (driver-side dimension)
         jobs.append({"id": k, "cfg": c, "seed": ck.seed * 1000 + k, "unrestricted": u, "mol": (("H" if k % 12 == 7 else "OH") if u else ("H2O_ghost" if k % 12 == 6 else "H2O")),
@@ -167,7 +171,7 @@ def main():
         for v in res["viol"]:
             ck.violation(v["site"], v["detail"], replay={"job": job})
         if res["proj"] is not None:
-            exp = bycfg[repr(sorted((k_, v_) for k_, v_ in c.items() if k_ not in ("base", "fl")))][1]
+            exp = bycfg[repr(sorted((k_, v_) for k_, v_ in c.items() if k_ not in ("base", "fl", "mult")))][1]
             for k_ in ("integrator", "grids", "xc"):
                 if res["proj"][k_] != exp[k_]:
                     ck.violation("projection:%s" % k_, {"cfg": c, "impl": res["proj"][k_], "spec": exp[k_]}, replay={"job": job})
